@@ -65,11 +65,11 @@ var sentinel = bytes.Repeat([]byte{0xA5}, 16)
 
 // decodeBoth runs the two decoders over data under a read policy.
 type decRes struct {
-	h       ws.Header
-	err     error
-	used    int // bytes consumed from the source
-	maxEnd  int
-	reads   int
+	h      ws.Header
+	err    error
+	used   int // bytes consumed from the source
+	maxEnd int
+	reads  int
 }
 
 func runReadHeader(data []byte, chunk int) decRes {
@@ -192,12 +192,12 @@ func main() {
 				bytes.Repeat([]byte{0xff}, 12),
 				append([]byte{0x7f, 0xff}, bytes.Repeat([]byte{0xff}, 10)...),
 				append([]byte{0x80, 0x00}, bytes.Repeat([]byte{0x00}, 10)...),
-				{0x00, 0x7d, 1, 2, 3, 4, 5, 6, 7, 8, 9, 10},                   // 16-bit non-minimal 125
-				{0x00, 0x7e, 1, 2, 3, 4, 5, 6, 7, 8, 9, 10},                   // 16-bit minimal 126
-				{0, 0, 0, 0, 0, 0, 0xff, 0xff, 9, 8, 7, 6},                    // 64-bit non-minimal 65535
-				{0, 0, 0, 0, 0, 1, 0x00, 0x00, 9, 8, 7, 6},                    // 64-bit minimal 65536
-				{0x7f, 0xff, 0xff, 0xff, 0xff, 0xff, 0xff, 0xff, 1, 2, 3, 4},  // 2^63-1
-				{0x80, 0, 0, 0, 0, 0, 0, 1, 1, 2, 3, 4},                       // MSB set
+				{0x00, 0x7d, 1, 2, 3, 4, 5, 6, 7, 8, 9, 10},                  // 16-bit non-minimal 125
+				{0x00, 0x7e, 1, 2, 3, 4, 5, 6, 7, 8, 9, 10},                  // 16-bit minimal 126
+				{0, 0, 0, 0, 0, 0, 0xff, 0xff, 9, 8, 7, 6},                   // 64-bit non-minimal 65535
+				{0, 0, 0, 0, 0, 1, 0x00, 0x00, 9, 8, 7, 6},                   // 64-bit minimal 65536
+				{0x7f, 0xff, 0xff, 0xff, 0xff, 0xff, 0xff, 0xff, 1, 2, 3, 4}, // 2^63-1
+				{0x80, 0, 0, 0, 0, 0, 0, 1, 1, 2, 3, 4},                      // MSB set
 			}
 			kinds := readerKinds[:2]
 			if t.Thorough() {
@@ -300,6 +300,37 @@ func main() {
 							}
 							if s.Off != len(want) || s.MaxEnd > len(want) {
 								return explore.Failf("ReadFrame-overread", "consumed %d maxEnd %d want %d", s.Off, s.MaxEnd, len(want))
+							}
+							// the Must* variants are the same codec
+							md := env.NewDst()
+							ws.MustWriteFrame(md, f)
+							if !bytes.Equal(md.Bytes(), want) || !bytes.Equal(ws.MustCompileFrame(f), want) {
+								return explore.Failf("Must-variants-differ", "MustWriteFrame/MustCompileFrame bytes differ from the codec's")
+							}
+							ms := env.NewSrc(append(append([]byte{}, want...), sentinel...))
+							ms.Policy = env.FixedChunk(chunk)
+							if mg := ws.MustReadFrame(ms); !sameHdr(mg.Header, h) || !bytes.Equal(mg.Payload, payload) || ms.Off != len(want) {
+								return explore.Failf("MustReadFrame-differs", "hdr %+v payload len %d consumed %d", mg.Header, len(mg.Payload), ms.Off)
+							}
+							// frame constructors: the header describes the payload handed in
+							for _, c := range []struct {
+								name string
+								f    ws.Frame
+								op   ws.OpCode
+								fin  bool
+							}{
+								{"NewFrame(op=2,fin)", ws.NewFrame(ws.OpBinary, true, payload), ws.OpBinary, true},
+								{"NewFrame(op=0,!fin)", ws.NewFrame(ws.OpContinuation, false, payload), ws.OpContinuation, false},
+								{"NewTextFrame", ws.NewTextFrame(payload), ws.OpText, true},
+								{"NewBinaryFrame", ws.NewBinaryFrame(payload), ws.OpBinary, true},
+								{"NewPingFrame", ws.NewPingFrame(payload), ws.OpPing, true},
+								{"NewPongFrame", ws.NewPongFrame(payload), ws.OpPong, true},
+								{"NewCloseFrame", ws.NewCloseFrame(payload), ws.OpClose, true},
+							} {
+								hh := c.f.Header
+								if hh.OpCode != c.op || hh.Fin != c.fin || hh.Rsv != 0 || hh.Masked || hh.Length != int64(n) || !bytes.Equal(c.f.Payload, payload) {
+									return explore.Failf("frame-constructor:"+c.name, "header %+v for a payload of %d bytes", hh, n)
+								}
 							}
 							rest, _ := io.ReadAll(s)
 							if !bytes.Equal(rest, sentinel) {
@@ -495,7 +526,9 @@ func main() {
 				for k := 0; k < len(e1); k++ {
 					for _, h2 := range hs {
 						h1, h2, k := h1, h2, k
-						t.Do(func() string { return fmt.Sprintf("first stream: %d of %d bytes of hdr %s; new source: hdr %s", k, len(e1), h1, h2) }, func() *explore.Fail {
+						t.Do(func() string {
+							return fmt.Sprintf("first stream: %d of %d bytes of hdr %s; new source: hdr %s", k, len(e1), h1, h2)
+						}, func() *explore.Fail {
 							rd := &wsutil.Reader{Source: env.NewSrc(e1[:k]), SkipHeaderCheck: true}
 							if _, err := rd.NextFrame(); err == nil {
 								return explore.Failf("cut-header-no-error", "")
